@@ -94,6 +94,16 @@ async fn check_crash_state(
     if had_problems {
         return;
     }
+    // convergence: a clean reopen right after recovery shows the same state
+    // (quick: after first-level recoveries; thorough: after nested ones too)
+    let sr = if nested && std::env::var("VERIF_C01_NESTED_SECOND_REOPEN").is_err() { Vec::new() } else { crash::second_reopen(&mut fx, exp, &resolved).await };
+    let sr_bad = !sr.is_empty();
+    for (sig, msg) in sr {
+        push(t, format!("{}|{sig}", if nested { "nested" } else { "first" }), msg);
+    }
+    if sr_bad {
+        return;
+    }
     for (sig, msg) in crash::continuation(&mut fx, exp, &resolved).await {
         push(t, format!("{}|{sig}", if nested { "nested" } else { "first" }), msg);
     }
@@ -113,10 +123,17 @@ async fn check_crash_state(
     }
 }
 
-fn run_workload(workload: &[Op], start_idx: Idx, backend: Backend, faults: bool, shared: &Shared) -> Tally {
+fn bulk_prelude() -> Vec<Op> {
+    // 64 flushed documents: the next add gets id 65 = the first published allocation watermark
+    let mut v: Vec<Op> = (1..=64u8).map(|k| Op::Add(100 + k)).collect();
+    v.push(Op::Flush);
+    v
+}
+
+fn run_workload(prelude: &[Op], workload: &[Op], start_idx: Idx, backend: Backend, faults: bool, shared: &Shared) -> Tally {
     let mut t = Tally::default();
     util::block_on(async {
-        let rec = crash::record(workload, start_idx, backend, None).await;
+        let rec = crash::record_with_prelude(prelude, workload, start_idx, backend, None).await;
         if let Some(e) = &rec.open_error {
             t.problems.push(("record|open".into(), format!("fault-free open failed: {e}"), json!({})));
             return;
@@ -126,12 +143,15 @@ fn run_workload(workload: &[Op], start_idx: Idx, backend: Backend, faults: bool,
             if k > 0 {
                 ctlstore::apply(&mut content, &rec.journal[k - 1].mutation);
             }
+            if k < rec.prelude_end {
+                continue;
+            }
             let exp = crash::expectation_at(&rec, k);
             t.crash_states += 1;
             if exp.in_flight.is_some() {
                 t.in_flight_states += 1;
             }
-            let ctx = json!({"workload": workload, "start_idx": start_idx, "backend": backend, "crash_after_mutation": k,
+            let ctx = json!({"workload": workload, "bulk_prelude": !prelude.is_empty(), "start_idx": start_idx, "backend": backend, "crash_after_mutation": k,
                              "last_mutation": if k > 0 { rec.journal[k-1].mutation.label() } else { "none".into() },
                              "in_flight": exp.in_flight});
             check_crash_state(&content, &exp, backend, false, shared, &mut t, &ctx).await;
@@ -142,11 +162,11 @@ fn run_workload(workload: &[Op], start_idx: Idx, backend: Backend, faults: bool,
             }
         }
         if faults {
-            for i in 0..rec.attempts {
-                let frec = crash::record(workload, start_idx, backend, Some(i)).await;
+            for i in 0..(rec.attempts - rec.prelude_attempts) {
+                let frec = crash::record_with_prelude(prelude, workload, start_idx, backend, Some(i)).await;
                 t.fault_runs += 1;
-                let exp = crash::expectation_after_fault(&frec, i);
-                let ctx = json!({"workload": workload, "start_idx": start_idx, "backend": backend, "ambiguous_failure_at_mutation": i,
+                let exp = crash::expectation_after_fault(&frec, frec.prelude_attempts + i);
+                let ctx = json!({"workload": workload, "bulk_prelude": !prelude.is_empty(), "start_idx": start_idx, "backend": backend, "ambiguous_failure_at_mutation": i,
                                  "outcomes": frec.ops.iter().map(|r| r.out.short()).collect::<Vec<_>>()});
                 check_crash_state(&frec.final_content, &exp, backend, false, shared, &mut t, &ctx).await;
             }
@@ -161,14 +181,15 @@ fn replay(run: &mut Run, ctx: &serde_json::Value, property: &str) {
     let backend: Backend = serde_json::from_value(ctx["backend"].clone()).expect("backend");
     let shared = Shared { seen: Mutex::new(HashSet::new()) };
     let mut t = Tally::default();
+    let prelude = if ctx.get("bulk_prelude").and_then(|v| v.as_bool()).unwrap_or(false) { bulk_prelude() } else { vec![] };
     util::block_on(async {
         if let Some(i) = ctx.get("ambiguous_failure_at_mutation").and_then(|v| v.as_u64()) {
-            let frec = crash::record(&workload, start_idx, backend, Some(i)).await;
-            let exp = crash::expectation_after_fault(&frec, i);
+            let frec = crash::record_with_prelude(&prelude, &workload, start_idx, backend, Some(i)).await;
+            let exp = crash::expectation_after_fault(&frec, frec.prelude_attempts + i);
             check_crash_state(&frec.final_content, &exp, backend, false, &shared, &mut t, ctx).await;
         } else {
             let k = ctx["crash_after_mutation"].as_u64().unwrap() as usize;
-            let rec = crash::record(&workload, start_idx, backend, None).await;
+            let rec = crash::record_with_prelude(&prelude, &workload, start_idx, backend, None).await;
             let content = crash::content_at(&rec.journal, k);
             let exp = crash::expectation_at(&rec, k);
             check_crash_state(&content, &exp, backend, false, &shared, &mut t, ctx).await;
@@ -210,6 +231,10 @@ fn main() {
     }
     let c04 = property == "C04";
     let ops = if c04 { alphabet_c04() } else { alphabet() };
+    if run.tier == vcore::Tier::Thorough {
+        // SAFETY: single-threaded at this point
+        unsafe { std::env::set_var("VERIF_C01_NESTED_SECOND_REOPEN", "1") };
+    }
     let deadline = Instant::now() + Duration::from_secs_f64(run.budget_s);
     let threads = util::n_threads();
     let shared = Shared { seen: Mutex::new(HashSet::new()) };
@@ -234,13 +259,17 @@ fn main() {
                 // a workload whose last op is a pure rejection adds no new crash state
                 items.push(hist);
             }
-            let faults = depth <= run.tier.pick(2, 3);
+            // quick: ambiguous failures for every workload at depth <= 2 and, at depth 3,
+            // for the workloads over the 6-operation core {add, add, flush, update, remove, update}
+            let quick = run.tier == vcore::Tier::Quick;
+            let faults_all = depth <= run.tier.pick(2, 3);
             let done = Mutex::new(0u64);
             let tallies = util::par_map(items, threads, |w| {
                 if Instant::now() > deadline {
                     return None;
                 }
-                let t = run_workload(&w, starts[0], *backend, faults, &shared);
+                let core6 = quick && depth == 3 && w.iter().all(|o| ops[..6].contains(o));
+                let t = run_workload(&[], &w, starts[0], *backend, faults_all || core6, &shared);
                 *done.lock() += 1;
                 Some(t)
             });
@@ -270,6 +299,52 @@ fn main() {
             if run.violation_count() > 0 {
                 break 'outer;
             }
+        }
+    }
+    // ---- bulk start state: 64 flushed documents, so that ids cross the allocation-watermark stride
+    if !c04 && run.violation_count() == 0 && Instant::now() < deadline {
+        let prelude = bulk_prelude();
+        let bulk_ops = vec![Op::Add(0), Op::Add(1), Op::Flush, Op::Update(65, 0), Op::Remove(65), Op::Remove(1), Op::Update(1, 0), Op::Reopen];
+        let max_d = run.tier.pick(1, 3);
+        for depth in 1..=max_d {
+            let total = (bulk_ops.len() as u64).pow(depth as u32);
+            let mut items: Vec<Vec<Op>> = Vec::new();
+            for n in 0..total {
+                let mut hist = Vec::with_capacity(depth);
+                let mut x = n;
+                for _ in 0..depth {
+                    hist.push(bulk_ops[(x % bulk_ops.len() as u64) as usize].clone());
+                    x /= bulk_ops.len() as u64;
+                }
+                hist.reverse();
+                items.push(hist);
+            }
+            let tallies = util::par_map(items, threads, |w| {
+                if Instant::now() > deadline {
+                    return None;
+                }
+                Some(run_workload(&prelude, &w, starts[0], Backend::Mem, depth <= 1, &shared))
+            });
+            let mut finished = 0u64;
+            for t in tallies.into_iter().flatten() {
+                finished += 1;
+                run.add("workloads", 1);
+                run.add("bulk_start_workloads", 1);
+                run.add("crash_states", t.crash_states);
+                run.add("evaluations", t.recoveries);
+                run.add("nested_crash_states", t.nested);
+                run.add("dedup_hits", t.dedup_hits);
+                run.add("in_flight_crash_states", t.in_flight_states);
+                run.add("ambiguous_failure_runs", t.fault_runs);
+                for (sig, msg, ctx) in t.problems {
+                    run.violation(Violation { signature: format!("{property}|crash|{sig}"), summary: format!("{msg} [{}]", ctx), replay: ctx });
+                }
+            }
+            if finished < total {
+                run.cap_hit(&format!("time budget inside the bulk-start pass at depth {depth}: {finished}/{total} workloads"));
+                break;
+            }
+            completed.push(format!("bulk-start(64 flushed docs):depth{depth}:alphabet{}", bulk_ops.len()));
         }
     }
     let distinct = shared.seen.lock().len() as u64;
